@@ -109,22 +109,26 @@ theorem chunkStep_abs {r : Rb} {A sz : Nat} (hW : 0 < r.W) (hsz : rd32 r.mem (A 
 
 /-! ### free space -/
 
-theorem spaceFree_eq {r q TR} (h : Inv r q TR) : r.spaceFree = Fifo.free ⟨r.W, q, r.sem⟩ := by
+theorem spaceFree_eq {r q TR} (h : Inv r q TR) :
+    r.spaceFree = Fifo.free ⟨r.W, q, if r.ow then none else r.sem⟩ := by
   have hW := h.wpos
   have ha : TR % r.W < r.W := Nat.mod_lt _ hW
   have hu := h.used
   have hwp : r.wp = (TR % r.W + total q) % r.W := by rw [h.hwp, Nat.mod_add_mod]
   have hx := mod_lt2 (x := TR % r.W + total q) (W := r.W) (by omega)
-  unfold Rb.spaceFree Fifo.free
+  unfold Rb.spaceFree Rb.spaceFreeGen Fifo.free
   rw [h.hrp]
   cases q with
   | nil =>
     simp only [total_nil, Nat.add_zero, ha, if_true] at hx hwp
     rw [hx] at hwp
     simp only [hwp, Nat.lt_irrefl, if_false]
-    cases r.sem with
-    | none => rfl
-    | some n => cases n <;> rfl
+    cases r.ow with
+    | true => rfl
+    | false =>
+      cases r.sem with
+      | none => rfl
+      | some n => cases n <;> rfl
   | cons c cs =>
     have h2 : 2 ≤ total (c :: cs) := by have := cw_ge c.length; rw [total_cons]; omega
     show _ = 4 * (r.W - total (c :: cs) - 1)
@@ -132,5 +136,15 @@ theorem spaceFree_eq {r q TR} (h : Inv r q TR) : r.spaceFree = Fifo.free ⟨r.W,
     by_cases hlt : TR % r.W + U < r.W
     · rw [if_pos hlt] at hx; rw [hwp, hx, if_pos (by omega)]; omega
     · rw [if_neg hlt] at hx; rw [hwp, hx, if_neg (by omega), if_pos (by omega)]; omega
+
+/-- plain ring: the notification count takes part in the free-space rule -/
+theorem spaceFree_eq_normal {r q TR} (h : Inv r q TR) (how : r.ow = false) :
+    r.spaceFree = Fifo.free ⟨r.W, q, r.sem⟩ := by
+  rw [spaceFree_eq h, how]; rfl
+
+/-- overwrite ring: it does not -/
+theorem spaceFree_eq_ow {r q TR} (h : Inv r q TR) (how : r.ow = true) :
+    r.spaceFree = Fifo.free ⟨r.W, q, none⟩ := by
+  rw [spaceFree_eq h, how]; rfl
 
 end QbVerif.RingLemmas
